@@ -25,7 +25,11 @@ import (
 // and leaves no transaction open / no connection checked out.
 //
 // Dimensions varied by the "fault" suite (see c05Scenario):
-//   op     10 write operations over generated record graphs (c05Ops)
+//   op     10 write operations over generated record graphs of the relation family (c05Ops) + 12 over the C05S
+//          family (c05SOps, c05_sfam.go): every association upsert kind with its own conflict clause (belongs-to and
+//          many2many elements DO NOTHING, has-one / has-many / polymorphic DO UPDATE, join rows), generated and
+//          application keys (query path with RETURNING vs exec path), FullSaveAssociations on/off, association
+//          values that exist already, user ON CONFLICT clauses, Update / Delete with RETURNING
 //   where  the handle the operation runs on: plain / ctx-bound / TranslateError with a wrapping translator /
 //          PrepareStmt / inside a user transaction (Begin … Commit|Rollback) / inside a Transaction block /
 //          SkipDefaultTransaction (premise "default settings" does not hold: only "error reported" and
@@ -35,7 +39,12 @@ import (
 //          the failure of the following statement / of the COMMIT: context.Canceled or sql.ErrTxDone)
 //   err    the error value (c05ErrAlphabet): generic, well-known sentinels that code may special-case, wrapped
 //          sentinels, driver-specific values, an error with an empty message
-//   at     every driver-call index (BEGIN, every statement, PREPARE, COMMIT)
+//   at     every driver-call index (BEGIN, every statement, PREPARE, COMMIT) and every later STAGE of a statement
+//          (c05_stage.go): Rows.Next per row incl. the call after the last row (seen by gorm only in rows.Err()),
+//          Rows.Close, Result.RowsAffected, Result.LastInsertId; "inject-post" = the call takes effect, then fails
+//   real   genuine failures raised by SQLite while a statement is stepped: mech "trigger" (a RAISE(ABORT) trigger on
+//          every table – association and join tables included – refuses the n-th inserted / updated / deleted row),
+//          mech "poison" (the n-th record of the graph carries a value refused by a CHECK / NOT NULL constraint)
 //
 // Oracle (only what the property text states):
 //   * an injected failure of BEGIN / a statement / COMMIT must surface in the returned error (text of the
@@ -120,6 +129,14 @@ type c05Op struct {
 	Setup func(db *gorm.DB, rng *rand.Rand) func(db *gorm.DB) error
 }
 
+// c05Fam: "" = relation family of models.go, "s" = C05S… family (c05_sfam.go)
+func c05Fam(op c05Op) string {
+	if c05SOpNames[op.Name] {
+		return "s"
+	}
+	return ""
+}
+
 func c05Ops() []c05Op {
 	loadFirst := func(db *gorm.DB) *RUser {
 		var u RUser
@@ -131,11 +148,11 @@ func c05Ops() []c05Op {
 	return []c05Op{
 		{"CreateGraph", func(db *gorm.DB, rng *rand.Rand) func(*gorm.DB) error {
 			u := genUser(rng, "a")
-			return func(db *gorm.DB) error { c := *u; return db.Create(&c).Error }
+			return func(db *gorm.DB) error { c := c05CloneUser(u); return db.Create(c).Error }
 		}},
 		{"CreateSliceGraph", func(db *gorm.DB, rng *rand.Rand) func(*gorm.DB) error {
 			a, b := genUser(rng, "b"), genUser(rng, "c")
-			return func(db *gorm.DB) error { x, y := *a, *b; us := []*RUser{&x, &y}; return db.Create(&us).Error }
+			return func(db *gorm.DB) error { us := []*RUser{c05CloneUser(a), c05CloneUser(b)}; return db.Create(&us).Error }
 		}},
 		{"CreateInBatches", func(db *gorm.DB, rng *rand.Rand) func(*gorm.DB) error {
 			n := 3 + rng.Intn(4)
@@ -147,7 +164,7 @@ func c05Ops() []c05Op {
 			return func(db *gorm.DB) error {
 				cp := make([]RUser, len(us))
 				for i := range us {
-					cp[i] = *us[i]
+					cp[i] = *c05CloneUser(us[i])
 				}
 				return db.CreateInBatches(&cp, size).Error
 			}
@@ -155,15 +172,15 @@ func c05Ops() []c05Op {
 		{"SaveExistingFull", func(db *gorm.DB, rng *rand.Rand) func(*gorm.DB) error {
 			u := loadFirst(db)
 			return func(db *gorm.DB) error {
-				c := *u
+				c := c05CloneUser(u)
 				c.Name += "x"
-				c.Pets = append(append([]RPet{}, u.Pets...), RPet{Name: "newpet"})
-				return db.Session(&gorm.Session{FullSaveAssociations: true}).Save(&c).Error
+				c.Pets = append(c.Pets, RPet{Name: "newpet"})
+				return db.Session(&gorm.Session{FullSaveAssociations: true}).Save(c).Error
 			}
 		}},
 		{"SaveNew", func(db *gorm.DB, rng *rand.Rand) func(*gorm.DB) error {
 			u := genUser(rng, "g")
-			return func(db *gorm.DB) error { c := *u; return db.Save(&c).Error }
+			return func(db *gorm.DB) error { c := c05CloneUser(u); return db.Save(c).Error }
 		}},
 		{"SaveMissingKey", func(db *gorm.DB, rng *rand.Rand) func(*gorm.DB) error {
 			return func(db *gorm.DB) error {
@@ -193,8 +210,22 @@ func c05Ops() []c05Op {
 	}
 }
 
+// c05CloneUser: deep copy – gorm writes the generated keys into the records (and the records behind pointers and
+// slices) it saves, also when the operation is rolled back afterwards; every run starts from the pristine graph
+func c05CloneUser(u *RUser) *RUser {
+	b, err := json.Marshal(u)
+	if err != nil {
+		panic(err)
+	}
+	var c RUser
+	if err := json.Unmarshal(b, &c); err != nil {
+		panic(err)
+	}
+	return &c
+}
+
 func c05OpByName(n string) (c05Op, bool) {
-	for _, o := range c05Ops() {
+	for _, o := range append(c05Ops(), c05SOps()...) {
 		if o.Name == n {
 			return o, true
 		}
@@ -205,10 +236,17 @@ func c05OpByName(n string) (c05Op, bool) {
 // c05OpenDB: like OpenRec, plus (a) a held keep-alive connection so that the shared in-memory database survives
 // connections discarded by database/sql (ErrBadConn, cancelled transactions), (b) the configuration of `where`.
 func c05OpenDB(where string) (*gorm.DB, *Recorder, *sql.DB, *sql.Conn) {
+	db, rec, sqlDB, keep, _ := c05OpenDBS(where)
+	return db, rec, sqlDB, keep
+}
+
+// c05OpenDBS: the connection is the stage-aware wrapper of c05_stage.go (ctl switches the stage events on)
+func c05OpenDBS(where string) (*gorm.DB, *Recorder, *sql.DB, *sql.Conn, *c05StageCtl) {
 	n := atomic.AddInt64(&memCounter, 1)
 	dsn := fmt.Sprintf("file:verifmemc05x%d?mode=memory&cache=shared", n)
 	rec := &Recorder{}
-	sqlDB := sql.OpenDB(&recConnector{dsn: dsn, drv: &sqlite3.SQLiteDriver{}, rec: rec})
+	ctl := &c05StageCtl{}
+	sqlDB := sql.OpenDB(&c05Connector{recConnector: recConnector{dsn: dsn, drv: &sqlite3.SQLiteDriver{}, rec: rec}, ctl: ctl})
 	sqlDB.SetMaxIdleConns(4)
 	keep, err := sqlDB.Conn(context.Background())
 	if err != nil {
@@ -232,7 +270,7 @@ func c05OpenDB(where string) (*gorm.DB, *Recorder, *sql.DB, *sql.Conn) {
 	if err != nil {
 		panic(err)
 	}
-	return db, rec, sqlDB, keep
+	return db, rec, sqlDB, keep, ctl
 }
 
 type c05World struct {
@@ -243,6 +281,8 @@ type c05World struct {
 	keep   *sql.Conn
 	run    func(*gorm.DB) error
 	tables []string
+	ctl    *c05StageCtl
+	snap   bool
 }
 
 func (w *c05World) Close() {
@@ -250,15 +290,34 @@ func (w *c05World) Close() {
 	_ = w.sqlDB.Close()
 }
 
-func c05Build(op c05Op, seed int64, where string) *c05World {
-	db, rec, sqlDB, keep := c05OpenDB(where)
-	if err := db.AutoMigrate(relModels...); err != nil {
+func c05Build(op c05Op, seed int64, where string) *c05World { return c05BuildS(op, seed, where, false) }
+
+// c05BuildS: stages = record (and allow to fail) the stage events of c05_stage.go; every table of the world gets the
+// sleeping RAISE(ABORT) triggers
+func c05BuildS(op c05Op, seed int64, where string, stages bool) *c05World {
+	db, rec, sqlDB, keep, ctl := c05OpenDBS(where)
+	models, tables := relModels, relTables
+	if c05Fam(op) == "s" {
+		models = c05SModels
+		tables = c05TablesOf(db, models)
+	}
+	if err := db.AutoMigrate(models...); err != nil {
 		panic(err)
 	}
+	c05InstallTriggers(db, rec, tables)
 	rng := rand.New(rand.NewSource(seed))
-	seedRel(db, rng, 3)
-	w := &c05World{where: where, db: db, rec: rec, sqlDB: sqlDB, keep: keep, tables: relTables}
+	if c05Fam(op) == "s" {
+		c05SSeed(db, rng)
+	} else {
+		seedRel(db, rng, 3)
+	}
+	w := &c05World{where: where, db: db, rec: rec, sqlDB: sqlDB, keep: keep, tables: tables, ctl: ctl}
 	w.run = op.Setup(db, rng)
+	w.snapshot()
+	if stages {
+		atomic.StoreInt32(&ctl.on, 1)
+	}
+	ctl.takeReal()
 	rec.Reset()
 	return w
 }
@@ -341,7 +400,8 @@ func committedBefore(evs []Event, k int) bool {
 
 func faultable(e Event) bool {
 	switch e.Kind {
-	case "begin", "commit", "exec", "query", "stmt_exec", "stmt_query", "prepare":
+	case "begin", "commit", "exec", "query", "stmt_exec", "stmt_query", "prepare",
+		"rows_next", "rows_close", "res_rows", "res_lastid":
 		return true
 	}
 	return false
@@ -351,10 +411,16 @@ type c05Scenario struct {
 	Op    string `json:"op"`
 	Seed  int64  `json:"graph_seed"`
 	Where string `json:"where"`
-	Mech  string `json:"mech"` // inject | cancel
+	Mech  string `json:"mech"` // inject | inject-post | cancel | trigger | poison
 	Err   string `json:"err"`  // name in c05ErrAlphabet (inject)
 	At    int    `json:"fault_at"`
 	Event string `json:"fault_event,omitempty"`
+	// trigger: the N-th row of TrigOp on Table is refused by the table's RAISE(ABORT) trigger;
+	// poison: the N-th record of the operation's graph carries a value its table refuses (CHECK / NOT NULL)
+	Table  string `json:"table,omitempty"`
+	TrigOp string `json:"trig_op,omitempty"`
+	N      int    `json:"n,omitempty"`
+	Stages bool   `json:"stages,omitempty"` // fault_at counts the stage events of c05_stage.go as well
 }
 
 type c05Outcome struct {
@@ -367,12 +433,15 @@ type c05Outcome struct {
 	InUse    int
 	Verdict  string
 	Absorbed bool
+	Poisoned bool // poison mechanism: a record of the graph did get the refused value
+	Applied  map[string][]string
 }
 
 // c05RunOne runs the world's operation once with the scenario's fault and judges it.
 func c05RunOne(w *c05World, sc c05Scenario, dump0, applied map[string][]string) c05Outcome {
 	var o c05Outcome
 	w.rec.Reset()
+	w.ctl.takeReal()
 	var ctx context.Context
 	var cancel context.CancelFunc = func() {}
 	if w.where != "plain" || sc.Mech == "cancel" {
@@ -380,36 +449,83 @@ func c05RunOne(w *c05World, sc c05Scenario, dump0, applied map[string][]string) 
 	}
 	defer cancel()
 	ne, _ := c05ErrByName(sc.Err)
-	retries := 0 // driver.ErrBadConn: database/sql silently retries the call on other connections; fail those too
-	w.rec.Fault = func(idx int, ev *Event) error {
-		if !faultable(*ev) {
-			return nil
-		}
-		if idx == sc.At {
+	natural := sc.Mech == "trigger" || sc.Mech == "poison" // a genuine failure raised by SQLite itself
+	wantText := ""
+	switch sc.Mech {
+	case "trigger":
+		wantText = "c05 trigger: " + sc.TrigOp + " on " + sc.Table + " refused"
+		if err := w.arm(sc.Table, sc.TrigOp, sc.N); err != nil {
+			o.Verdict = "harness: cannot arm trigger: " + err.Error()
 			o.Hit = true
-			o.FaultEv = *ev
-			if sc.Mech == "cancel" {
-				cancel()
+			return o
+		}
+	case "poison":
+		wantText = "constraint failed"
+		c05PoisonAt = sc.N
+		c05PoisonApplied = false
+	case "inject-post":
+		atomic.StoreInt32(&w.ctl.post, 1)
+	}
+	retries := 0 // driver.ErrBadConn: database/sql silently retries the call on other connections; fail those too
+	if !natural {
+		w.rec.Fault = func(idx int, ev *Event) error {
+			if !faultable(*ev) {
 				return nil
 			}
-			if ne.Err == driver.ErrBadConn {
-				retries = 3
+			if idx == sc.At {
+				if ev.Kind == "rows_next" && ne.Err == io.EOF && sc.Mech != "cancel" {
+					return nil // io.EOF from Next IS the end of the rows: nothing failed
+				}
+				if ev.Kind == "begin" && ne.Err == gorm.ErrInvalidTransaction && sc.Mech != "cancel" {
+					// see c05ErrsFor: gorm's own "already inside a transaction" sentinel is not a driver failure (the
+					// call at this index can be a BEGIN although the probe's label was a statement: PrepareStmt
+					// worlds prepare less on later runs)
+					return nil
+				}
+				o.Hit = true
+				o.FaultEv = *ev
+				if sc.Mech == "cancel" {
+					cancel()
+					return nil
+				}
+				if ne.Err == driver.ErrBadConn {
+					retries = 3
+				}
+				return ne.Err
 			}
-			return ne.Err
+			if retries > 0 && idx > sc.At && ev.Kind == o.FaultEv.Kind && ev.SQL == o.FaultEv.SQL {
+				retries--
+				return ne.Err
+			}
+			retries = 0
+			return nil
 		}
-		if retries > 0 && idx > sc.At && ev.Kind == o.FaultEv.Kind && ev.SQL == o.FaultEv.SQL {
-			retries--
-			return ne.Err
-		}
-		retries = 0
-		return nil
 	}
 	o.Err = w.exec(ctx)
 	w.rec.mu.Lock()
 	w.rec.Fault = nil
 	w.rec.mu.Unlock()
+	atomic.StoreInt32(&w.ctl.post, 0)
+	c05PoisonAt = -1
+	o.Poisoned = c05PoisonApplied
 	o.OpenTx, o.InUse = w.quiesce()
 	o.Events = w.rec.Snapshot()
+	real := w.ctl.takeReal()
+	if natural {
+		if sc.Mech == "trigger" {
+			if err := w.arm("", "", 0); err != nil {
+				o.Verdict = "harness: cannot disarm trigger (table locked by a transaction left open?): " + err.Error()
+				o.Hit = true
+				return o
+			}
+		}
+		for _, e := range real {
+			if strings.Contains(e, wantText) {
+				o.Hit = true
+				o.FaultEv = Event{Kind: sc.Mech, SQL: e}
+			}
+		}
+	}
 	if !o.Hit {
 		return o
 	}
@@ -417,11 +533,17 @@ func c05RunOne(w *c05World, sc c05Scenario, dump0, applied map[string][]string) 
 	same := reflect.DeepEqual(dump0, o.Dump)
 	full := applied != nil && reflect.DeepEqual(applied, o.Dump)
 	atomicDemanded := w.where != "skipdefault"
+	injected := sc.Mech == "inject" || sc.Mech == "inject-post"
+	mustReport := c05MustReport(o.FaultEv.Kind)
 	switch {
-	case sc.Mech == "inject" && o.Err == nil && !(ne.Err == driver.ErrBadConn && full):
-		o.Verdict = "operation reported no error although a driver call failed with " + sc.Err
-	case sc.Mech == "inject" && o.Err != nil && !strings.Contains(o.Err.Error(), ne.Err.Error()):
+	case injected && mustReport && o.Err == nil && !(ne.Err == driver.ErrBadConn && full):
+		o.Verdict = "operation reported no error although a driver call failed with " + sc.Err + " (stage " + o.FaultEv.Kind + ")"
+	case injected && mustReport && o.Err != nil && !strings.Contains(o.Err.Error(), ne.Err.Error()):
 		o.Verdict = "result error does not mention the driver failure " + sc.Err + ": " + o.Err.Error()
+	case natural && o.Err == nil:
+		o.Verdict = "operation reported no error although the database refused a statement: " + o.FaultEv.SQL
+	case natural && !strings.Contains(o.Err.Error(), wantText):
+		o.Verdict = "result error does not mention the statement failure (" + o.FaultEv.SQL + "): " + o.Err.Error()
 	case atomicDemanded && o.Err != nil && !same:
 		o.Verdict = "database changed although the operation failed"
 	case atomicDemanded && o.Err == nil && !full:
@@ -429,6 +551,7 @@ func c05RunOne(w *c05World, sc c05Scenario, dump0, applied map[string][]string) 
 			o.Verdict = "operation reported success but nothing was stored (its transaction did not commit)"
 		} else {
 			o.Verdict = "operation reported success but was applied only partially"
+			o.Applied = applied
 		}
 	case o.OpenTx != 0:
 		o.Verdict = fmt.Sprintf("%d transaction(s) left open", o.OpenTx)
@@ -441,7 +564,11 @@ func c05RunOne(w *c05World, sc c05Scenario, dump0, applied map[string][]string) 
 
 // c05Probe: fault-free run on an identical world: the events and the fully applied state
 func c05Probe(op c05Op, seed int64, where string) (evs []Event, applied map[string][]string, err error) {
-	p := c05Build(op, seed, where)
+	return c05ProbeS(op, seed, where, false)
+}
+
+func c05ProbeS(op c05Op, seed int64, where string, stages bool) (evs []Event, applied map[string][]string, err error) {
+	p := c05BuildS(op, seed, where, stages)
 	defer p.Close()
 	var ctx context.Context
 	if where != "plain" {
@@ -454,8 +581,12 @@ func c05Probe(op c05Op, seed int64, where string) (evs []Event, applied map[stri
 }
 
 func c05Obs(o c05Outcome, dump0 map[string][]string) map[string]interface{} {
-	return map[string]interface{}{"error": fmt.Sprint(o.Err), "events": evKinds(o.Events), "before": dump0, "after": o.Dump,
+	m := map[string]interface{}{"error": fmt.Sprint(o.Err), "events": evKinds(o.Events), "before": dump0, "after": o.Dump,
 		"open_tx": o.OpenTx, "in_use": o.InUse}
+	if o.Applied != nil {
+		m["fully_applied_would_be"] = o.Applied
+	}
+	return m
 }
 
 // firingOrder wraps every registered built-in of a pipeline (looked up by the names in facts.json) with a
@@ -527,10 +658,10 @@ func c05ErrsFor(ev Event, rng *rand.Rand, tier string) []c05NamedErr {
 			}
 			out = append(out, e)
 		}
-		if tier == "quick" && len(out) > 8 {
+		if tier == "quick" && len(out) > 6 {
 			// generic + a rotating window over the sentinels: every value is reached within a few graphs
 			rng.Shuffle(len(out)-1, func(i, j int) { out[i+1], out[j+1] = out[j+1], out[i+1] })
-			out = out[:8]
+			out = out[:6]
 		}
 		return out
 	}
@@ -545,14 +676,77 @@ func c05ErrsFor(ev Event, rng *rand.Rand, tier string) []c05NamedErr {
 	return out
 }
 
-func c05FaultSuite(r *Result, rng *rand.Rand, tier string) {
-	graphs := 12
-	if tier == "thorough" {
-		graphs = 150
-	} else if tier == "search" {
-		graphs = 20
+// c05Trials: which (mechanism, error value) pairs to try at one driver-call index
+type c05Trial struct{ mech, err string }
+
+func c05TrialsFor(ev Event, rng *rand.Rand, tier string) []c05Trial {
+	drawn := func(not ...string) string {
+		for {
+			n := c05ErrAlphabet[rng.Intn(len(c05ErrAlphabet))].Name
+			ok := true
+			for _, x := range not {
+				if n == x {
+					ok = false
+				}
+			}
+			if ok {
+				return n
+			}
+		}
 	}
-	ops := c05Ops()
+	switch ev.Kind {
+	case "rows_next":
+		// io.EOF from Next IS the end of the rows, not a failure
+		if tier == "quick" {
+			ts := []c05Trial{{"inject", "generic"}}
+			if rng.Intn(2) == 0 {
+				ts[0].err = drawn("io.EOF", "generic")
+			}
+			if i, _ := ev.Args[0].(int); i == 0 {
+				ts = append(ts, []c05Trial{{"cancel", ""}, {"inject-post", "generic"}}[rng.Intn(2)])
+			}
+			return ts
+		}
+		return []c05Trial{{"inject", "generic"}, {"inject", drawn("io.EOF", "generic")}, {"cancel", ""}, {"inject-post", "generic"}}
+	case "rows_close", "res_rows", "res_lastid":
+		ts := []c05Trial{{"inject", "generic"}}
+		if tier != "quick" {
+			ts = append(ts, c05Trial{"inject", drawn()})
+		}
+		return ts
+	}
+	ts := []c05Trial{{"cancel", ""}}
+	for _, e := range c05ErrsFor(ev, rng, tier) {
+		ts = append(ts, c05Trial{"inject", e.Name})
+	}
+	switch ev.Kind {
+	case "exec", "query", "stmt_exec", "stmt_query":
+		ts = append(ts, c05Trial{"inject-post", "generic"})
+		if tier == "quick" {
+			// generic always; of {cancel, drawn value, post} two per call
+			drop := 1 + rng.Intn(3)
+			if drop == 1 {
+				drop = 0
+			}
+			ts = append(ts[:drop], ts[drop+1:]...)
+		}
+	}
+	return ts
+}
+
+func c05FaultSuite(r *Result, rng *rand.Rand, tier string) {
+	graphs := 6
+	if tier == "thorough" {
+		graphs = 45
+	} else if tier == "search" {
+		graphs = 10
+	}
+	ops := append(c05Ops(), c05SOps()...)
+	t0 := time.Now()
+	worlds, rebuilds, restores := 0, 0, 0
+	defer func() {
+		r.Note("fault suite: %d worlds, %d table restores and %d rebuilds after an applied/violating run, %.1fs", worlds, restores, rebuilds, time.Since(t0).Seconds())
+	}()
 	for g := 0; g < graphs && !expired(); g++ {
 		for oi, op := range ops {
 			seed := rng.Int63()
@@ -560,17 +754,69 @@ func c05FaultSuite(r *Result, rng *rand.Rand, tier string) {
 			if g == 0 {
 				where = "ctx"
 			}
-			pevs, applied, perr := c05Probe(op, seed, where)
+			pevs, applied, perr := c05ProbeS(op, seed, where, true)
 			if perr != nil {
 				r.Note("probe of %s/%s failed without fault: %v", op.Name, where, perr)
 				continue
 			}
-			w := c05Build(op, seed, where)
+			w := c05BuildS(op, seed, where, true)
 			dump0 := w.dump()
+			worlds++
 			rebuild := func() {
+				if o, i := w.quiesce(); o == 0 && i == 0 && w.restore() == nil && reflect.DeepEqual(dump0, w.dump()) {
+					restores++
+					return
+				}
+				rebuilds++
 				w.Close()
-				w = c05Build(op, seed, where)
+				w = c05BuildS(op, seed, where, true)
 				dump0 = w.dump()
+			}
+			// judge: record the outcome of one reached fault; returns false when the world had to be rebuilt
+			judge := func(sc c05Scenario, o c05Outcome) {
+				r.H("op", op.Name)
+				r.H("where", where)
+				r.H("mech", sc.Mech)
+				r.H("fault_kind", o.FaultEv.Kind)
+				if sc.Mech == "inject" || sc.Mech == "inject-post" {
+					r.H("err_value", sc.Err)
+					r.H("err_value@"+o.FaultEv.Kind, sc.Err)
+				} else if sc.Mech == "cancel" {
+					switch {
+					case o.Err == nil:
+						r.H("cancel_outcome", "too late: applied")
+					case errors.Is(o.Err, sql.ErrTxDone):
+						r.H("cancel_outcome", "sql.ErrTxDone")
+					case errors.Is(o.Err, context.Canceled):
+						r.H("cancel_outcome", "context.Canceled")
+					default:
+						r.H("cancel_outcome", "other error")
+					}
+				}
+				if c05StageKind(o.FaultEv.Kind) {
+					out := "reported"
+					if o.Err == nil {
+						out = "not visible to the caller: applied"
+					}
+					r.H("stage_outcome@"+o.FaultEv.Kind, out)
+				}
+				committed := c05CommittedBefore(o.Events, sc)
+				if sc.Mech == "trigger" || sc.Mech == "poison" {
+					committed = committedBefore(o.Events, len(o.Events))
+				}
+				if o.Verdict != "" && op.Name == "SaveMissingKey" && listed("F17-C05-save-two-phase") && committed &&
+					(strings.HasPrefix(o.Verdict, "database changed") || strings.HasSuffix(o.Verdict, "applied only partially")) &&
+					(where == "plain" || where == "ctx" || where == "translate" || where == "prepare") {
+					// Save(value whose key matches no row): UPDATE phase (with its association upserts) commits in
+					// its own transaction before the INSERT phase starts; a fault in the second phase keeps them
+					r.KnownFinding("F17-C05-save-two-phase", o.Verdict+" ("+o.FaultEv.Kind+")")
+					rebuild()
+				} else if o.Verdict != "" {
+					r.Violate(Violation{Kind: "e2e", Suite: "fault", Input: sc, Observed: c05Obs(o, dump0), Expected: o.Verdict})
+					rebuild()
+				} else if !reflect.DeepEqual(dump0, o.Dump) {
+					rebuild() // legitimately applied (cancel came too late / skipdefault / stage after the statement)
+				}
 			}
 			// k runs over the driver-call indices of THIS world's run (a PrepareStmt world prepares less on later
 			// runs, so the loop ends when the index is no longer reached rather than at the probe's length)
@@ -582,14 +828,9 @@ func c05FaultSuite(r *Result, rng *rand.Rand, tier string) {
 						continue
 					}
 				}
-				type trial struct{ mech, err string }
-				trials := []trial{{"cancel", ""}}
-				for _, e := range c05ErrsFor(label, rng, tier) {
-					trials = append(trials, trial{"inject", e.Name})
-				}
 				reached := false
-				for _, t := range trials {
-					sc := c05Scenario{Op: op.Name, Seed: seed, Where: where, Mech: t.mech, Err: t.err, At: k}
+				for _, t := range c05TrialsFor(label, rng, tier) {
+					sc := c05Scenario{Op: op.Name, Seed: seed, Where: where, Mech: t.mech, Err: t.err, At: k, Stages: true}
 					o := c05RunOne(w, sc, dump0, applied)
 					sc.Event = o.FaultEv.Kind + " " + trunc(o.FaultEv.SQL, 60)
 					r.Case("fault", fmt.Sprint(op.Name, where, t.mech, t.err, o.FaultEv.Kind, trunc(o.FaultEv.SQL, 40)), o.Hit)
@@ -601,44 +842,60 @@ func c05FaultSuite(r *Result, rng *rand.Rand, tier string) {
 						continue
 					}
 					reached = true
-					r.H("op", op.Name)
-					r.H("where", where)
-					r.H("mech", t.mech)
-					r.H("fault_kind", o.FaultEv.Kind)
-					if t.mech == "inject" {
-						r.H("err_value", t.err)
-						r.H("err_value@"+o.FaultEv.Kind, t.err)
-					} else if o.Err == nil {
-						r.H("cancel_outcome", "too late: applied")
-					} else {
-						switch {
-						case errors.Is(o.Err, sql.ErrTxDone):
-							r.H("cancel_outcome", "sql.ErrTxDone")
-						case errors.Is(o.Err, context.Canceled):
-							r.H("cancel_outcome", "context.Canceled")
-						default:
-							r.H("cancel_outcome", "other error")
-						}
-					}
 					if (g*31+k)%197 == 0 && t.mech == "inject" && t.err == "generic" {
 						r.Sample(map[string]interface{}{"input": sc, "events": evKinds(o.Events), "error": fmt.Sprint(o.Err)})
 					}
-					if o.Verdict != "" && op.Name == "SaveMissingKey" && listed("F17-C05-save-two-phase") && c05CommittedBefore(o.Events, sc) &&
-						(strings.HasPrefix(o.Verdict, "database changed") || strings.HasSuffix(o.Verdict, "applied only partially")) &&
-						(where == "plain" || where == "ctx" || where == "translate" || where == "prepare") {
-						// Save(value whose key matches no row): UPDATE phase (with its association upserts) commits in
-						// its own transaction before the INSERT phase starts; a fault in the second phase keeps them
-						r.KnownFinding("F17-C05-save-two-phase", o.Verdict+" ("+o.FaultEv.Kind+")")
-						rebuild()
-					} else if o.Verdict != "" {
-						r.Violate(Violation{Kind: "e2e", Suite: "fault", Input: sc, Observed: c05Obs(o, dump0), Expected: o.Verdict})
-						rebuild()
-					} else if !reflect.DeepEqual(dump0, o.Dump) {
-						rebuild() // legitimately applied (cancel came too late / skipdefault)
-					}
+					judge(sc, o)
 				}
 				if !reached && k >= len(pevs) {
 					break
+				}
+			}
+			// genuine failures raised by the database while a statement is stepped: the n-th row written to each
+			// table the operation touches is refused by that table's trigger
+			pairs, rowsOf := c05Touched(pevs)
+			maxN := 3
+			if tier != "quick" {
+				maxN = 6
+			}
+			for _, p := range pairs {
+				// n beyond the rows the operation writes to the table never fires (and costs a fresh world)
+				for n := 1; n <= maxN && n <= rowsOf[p]; n++ {
+					sc := c05Scenario{Op: op.Name, Seed: seed, Where: where, Mech: "trigger", Table: p[0], TrigOp: p[1], N: n, Stages: true}
+					o := c05RunOne(w, sc, dump0, applied)
+					sc.Event = trunc(o.FaultEv.SQL, 80)
+					r.Case("fault", fmt.Sprint(op.Name, where, "trigger", p[0], p[1], n), o.Hit)
+					if !o.Hit {
+						r.H("trigger_not_fired", fmt.Sprint(p[1], " n=", n))
+						rebuild()
+						break
+					}
+					r.H("trigger_table_op", p[0]+" "+p[1])
+					r.H("trigger_row", fmt.Sprint(n))
+					judge(sc, o)
+				}
+			}
+			// a refused VALUE (CHECK / NOT NULL) in the n-th record of the operation's graph
+			if c05Fam(op) == "s" {
+				for n := 0; n < 40; n++ {
+					sc := c05Scenario{Op: op.Name, Seed: seed, Where: where, Mech: "poison", N: n, Stages: true}
+					o := c05RunOne(w, sc, dump0, applied)
+					sc.Event = trunc(o.FaultEv.SQL, 80)
+					r.Case("fault", fmt.Sprint(op.Name, where, "poison", n, trunc(o.FaultEv.SQL, 50)), o.Hit)
+					if !o.Hit {
+						// beyond the last record, or the record is not written by this operation (conflict branch)
+						r.H("poison_not_refused", op.Name)
+						changed := !reflect.DeepEqual(dump0, w.dump())
+						if changed {
+							rebuild()
+						}
+						if !o.Poisoned {
+							break // n is beyond the last record of the graph
+						}
+						continue
+					}
+					r.H("poison_failure", trunc(o.FaultEv.SQL, 40))
+					judge(sc, o)
 				}
 			}
 			w.Close()
@@ -667,11 +924,11 @@ func c05ReplayFault(r *Result, input json.RawMessage) {
 		r.Note("unknown op %q", sc.Op)
 		return
 	}
-	_, applied, perr := c05Probe(op, sc.Seed, sc.Where)
+	_, applied, perr := c05ProbeS(op, sc.Seed, sc.Where, sc.Stages)
 	if perr != nil {
 		r.Note("probe failed: %v", perr)
 	}
-	w := c05Build(op, sc.Seed, sc.Where)
+	w := c05BuildS(op, sc.Seed, sc.Where, sc.Stages)
 	defer w.Close()
 	dump0 := w.dump()
 	// the world of the original run had executed the operation (rolled back) before: prepared-statement caches
